@@ -82,6 +82,10 @@ Definition pcfg_ok (pc : parse_cfg) : bool :=
   strips_ws pc && splits_ws pc && uses_float pc &&
   forallb (fun c => negb (numchar c) && negb (py_space c)) (opens pc ++ closes pc).
 
+(** the four bracket pairs that the documentation of parse_vec_str / from_str promises to ignore: ( ) { } [ ] < > *)
+Definition accepts_documented_brackets (pc : parse_cfg) : bool :=
+  forallb (fun c => mem c (opens pc)) [40; 123; 91; 60] && forallb (fun c => mem c (closes pc)) [41; 125; 93; 62].
+
 (** the text of a vector / angle: three numbers separated by single spaces (VecBase.__str__, AngleBase.__str__) *)
 Definition vec_text (c : fmt_cfg) (x y z : dyadic) : list N :=
   format6 c x ++ [32] ++ format6 c y ++ [32] ++ format6 c z.
